@@ -296,7 +296,16 @@ def rule_e(ctx):
     c10.rule_d(ctx)
 
 
+def rule_f(ctx):
+    """delivery of the chained sends to the model preserves their order"""
+    from . import c02, c05, c12
+    c02.rule_a(ctx)
+    c05.recv_awaits_handler(ctx)
+    c12.rule_a(ctx)
+    c12.rule_d(ctx)
+
 RULES = [
+    ("C07.f", "each chained send completes when enqueued; FIFO mailbox; sequential receiver", rule_f),
     ("C07.a", "key = (time, origin id); 0 for the scheduler, channel id for a model", rule_a),
     ("C07.b", "same-key actions are chained in pull order in one task", rule_b),
     ("C07.c", "SeqFuture polls strictly in sequence", rule_c),
